@@ -79,6 +79,11 @@ class JournalFileBackend(BaseJournalBackend):
                     break
                 if last_decode_error is not None:
                     raise last_decode_error
+                # Ensure that each line ends with line separators (\n, \r\n).
+                # The offset of a line being written by another process must not be cached.
+                if not line.endswith(b"\n"):
+                    last_decode_error = ValueError("Invalid log format.")
+                    continue
                 if log_number + 1 not in self._log_number_offset:
                     self._log_number_offset[log_number + 1] = (
                         self._log_number_offset[log_number] + byte_len
@@ -86,11 +91,6 @@ class JournalFileBackend(BaseJournalBackend):
                 if log_number < log_number_from:
                     continue
 
-                # Ensure that each line ends with line separators (\n, \r\n).
-                if not line.endswith(b"\n"):
-                    last_decode_error = ValueError("Invalid log format.")
-                    del self._log_number_offset[log_number + 1]
-                    continue
                 try:
                     logs.append(json.loads(line))
                 except json.JSONDecodeError as err:
